@@ -400,8 +400,12 @@ func (vm *Type) Run(retResult bool) (value.Type, error) {
 
 			nip := m.IP()
 			if nip == nil {
+				// a return outside of any call ends the statement; its value is the
+				// statement's result, which only a caller that asked for it pops
 				m.ResetSP()
-				m.Push(val)
+				if retResult {
+					m.Push(val)
+				}
 				ip = len(*cs) - 1
 				break
 			}
